@@ -11,6 +11,19 @@ TRUST = ('CPython ast parses what the interpreter runs; no exec/eval/metaclasses
          'geometry is assumed, not decided.')
 
 CLAIMS = {
+    'C01': dict(
+        technique='membership-fact rules with bounded evaluation of index arithmetic; lockstep '
+                  'move/complement analysis; sibling pairing of the transfer replacement',
+        text='Decides the partition mechanism: fresh proposals are met with NOT contains() of '
+             'every later bound (slice arithmetic evaluated for 1..6 bounds and every index incl. '
+             '-1) before anything is returned; when a bound is appended every earlier shell is '
+             'split by contains() of the newest bound on its own points, rows moving with one '
+             'mask and staying with its complement; transfer candidates re-enter only the newest '
+             'shell, replacing proposals of the same provenance, each at most once; rows are '
+             'stored under the shell they were drawn for; proposals come from unit-cube '
+             'restricted bounds and the phase shift is closed on [0,1).',
+        ref='DESIGN.md section 4 C01, rules M4 M5 L1 L2 L3 L4 A5 Q3 T8 M3 M6 F6', note=TRUST +
+        ' contains() of each bound is numerically what it says (C07 leaf assumption).'),
     'C02': dict(
         technique='lockstep path analysis over per-shell records; dirty=>recompute post-dominance '
                   'on CFGs; def-use agreement of proposal accounting and exploration boundary',
@@ -73,6 +86,18 @@ CLAIMS = {
 }
 
 CLAIMS.update({
+    'C07': dict(
+        technique='membership-fact (selection-before-cache) path rules, meet-only mask rule, '
+                  'column-polarity pairing, lockstep of per-ellipsoid records, interval closure',
+        text='Decides soundness at the composition level: Union.sample filters by the cube under '
+             'the same guard as contains(); NautilusBound.sample keeps only proposals that some '
+             'neural bound contains and returns them through the inverse shift while contains() '
+             'shifts forward first; composite contains() masks start from the outer bound and '
+             'are only narrowed; the mixture pairs cube/ellipsoid with the right columns in '
+             'transform, contains and sample; construction points stay recorded with the '
+             'ellipsoid built from them through splits; caches are reset when members change.  '
+             'Leaf floating-point geometry is assumed.',
+        ref='DESIGN.md section 4 C07, rules M1 M2 M3 A4 M6 L1 L6 T9', note=TRUST),
     'C08': dict(
         technique='sibling-agreement (serial vs pool branch) and def-use dependency rules',
         text='WEAK claim, structural necessary conditions only: the pool branch of '
